@@ -139,11 +139,11 @@ def restrict_case(case, wid):
 ADVERSARIAL_KINDS = ['badutf8', 'garbage', 'truncated', 'client_reset', 'refused', 'gaierror', 'timeout', 'upstream_reset',
                      'upstream_garbage', 'client_pipe', 'client_oserror', 'eof_now', 'connect_refused', 'two_origins',
                      'reverse_second', 'connection_options', 'huge_header', 'bad_chunk', 'tunnel_abort', 'nul_host', 'upstream_send_err',
-                     'pending_output_teardown', 'lingering_after_upstream_close', 'reverse_short_writes', 'reverse_upstream_never_reads',
+                     'pending_output_teardown', 'lingering_after_upstream_close', 'reverse_lingering_after_upstream_close', 'reverse_short_writes', 'reverse_upstream_never_reads',
                      'plugin_rejects_after_connect', 'plugin_raises_after_connect']
 # multi-step scenarios that are always part of the run (several variants each): the canary arrives AFTER the adversarial
 # connection reached its bad state, on the descriptor number the kernel would recycle
-ROUND2_KINDS = ['pending_output_teardown', 'lingering_after_upstream_close', 'reverse_short_writes', 'reverse_upstream_never_reads']
+ROUND2_KINDS = ['pending_output_teardown', 'lingering_after_upstream_close', 'reverse_lingering_after_upstream_close', 'reverse_short_writes', 'reverse_upstream_never_reads']
 CANARY_KINDS = ['get', 'post_split', 'chunked', 'tunnel', 'web404', 'reverse']
 
 
@@ -243,6 +243,12 @@ def adversarial_conv(rng, kind, name, arrive):
         # the upstream is done (EOF / reset) while output is still queued for a slow client: the work lingers
         return dict(base, client=[req], client_send=[rng.choice([1, 100, 4000])], client_never_reads=True,
                     upstreams=[dict(respond=[big, b'z' * 40000, rng.choice(['EOF', 'reset'])])])
+    if kind == 'reverse_lingering_after_upstream_close':
+        # reverse proxy: the backend is done (EOF / reset) while output is still queued for a client that does not read: the
+        # work lingers with a finished upstream; the canary arrives afterwards on the descriptor number the kernel recycles
+        r = b'GET /rev/a HTTP/1.1\r\nHost: localhost\r\n\r\n'
+        return dict(base, hosts=['rev.upstream.test'], shared_host=True, client=[r], client_send=[rng.choice([1, 100, 4000])],
+                    client_never_reads=True, upstreams=[dict(respond=[big, b'z' * 40000, rng.choice(['EOF', 'EOF', 'reset'])])])
     if kind == 'reverse_short_writes':
         body = b'b' * 5000
         r = b'POST /rev/a HTTP/1.1\r\nHost: localhost\r\nContent-Length: %d\r\n\r\n' % len(body) + body
